@@ -1,8 +1,295 @@
-import FalconModel.ConstSpec
-namespace Falcon.C04
-open Falcon
+/-
+  Props.C04 — IL expression evaluation is exact fixed-width bit-vector arithmetic.
 
-theorem placeholder_add_sort (a b : Const) (h : a.bits ≠ b.bits) : Const.add a b = .err .sort := by
-  simp [Const.add, h]
+  Model:  FalconModel/Const.lean, Expr.lean  (mirror of lib/il/constant.rs, expression.rs, executor/eval.rs)
+  Spec:   FalconModel/ConstSpec.lean          (`BitVec n` operations)
+  `Const.Good c` = the value is reduced, `1 ≤ c.bits`, `c.bits < 2^64` (widths are `usize`).
+  Every theorem is for ALL widths and ALL values; nothing is enumerated.
+-/
+import FalconProofs.C04.Eval
+
+namespace Falcon.C04
+open Falcon Falcon.Const
+
+/-! ### the specification's guarded shifts are the plain `BitVec` shifts -/
+
+theorem spec_shl_eq {n : Nat} (x : BitVec n) (s : Nat) : Spec.shl x s = x <<< s := by
+  unfold Spec.shl
+  split
+  · rename_i h; exact (BitVec.shiftLeft_eq_zero h).symm
+  · rfl
+
+theorem spec_shr_eq {n : Nat} (x : BitVec n) (s : Nat) : Spec.shr x s = x >>> s := by
+  unfold Spec.shr
+  split
+  · rename_i h
+    apply BitVec.eq_of_toNat_eq
+    rw [BitVec.toNat_ushiftRight, shiftRight_eq_zero_of_ge x.isLt h]; simp
+  · rfl
+
+theorem spec_ashr_eq {n : Nat} (x : BitVec n) (s : Nat) : Spec.ashr x s = x.sshiftRight s := by
+  unfold Spec.ashr
+  split
+  · rename_i h
+    apply BitVec.eq_of_getLsbD_eq
+    intro i hi
+    rw [BitVec.getLsbD_sshiftRight]
+    have h1 : ¬ n ≤ i := by omega
+    have h2 : ¬ s + i < n := by omega
+    cases hm : x.msb <;> simp [h1, h2, hi]
+  · rfl
+
+/-! ### every operator = its bit-vector meaning (all widths ≥ 1, all values) -/
+
+/-- binary operators: result, sort error and division error exactly as the specification says -/
+theorem bin_spec (op : BinOp) (a b : Const) (ha : a.Good) (hb : b.Good) :
+    op.apply a b = Spec.bin op a b := apply_eq_spec op a b ha hb
+
+/-- in `BitVec` terms, for operands of one width -/
+theorem bin_spec_bv {n : Nat} (hn : 1 ≤ n) (h64 : n < 2 ^ 64) (op : BinOp) (x y : BitVec n) :
+    op.apply (ofBV x) (ofBV y) =
+      match Spec.binBV op x y with
+      | some c => .ok c
+      | none => .err .div0 := by
+  rw [apply_ofBV hn h64]
+  cases h : Spec.binBV op x y with
+  | some c => exact Spec.bin_ofBV_some h
+  | none => exact Spec.bin_ofBV_none h
+
+theorem add_spec {n} (x y : BitVec n) : Const.add (ofBV x) (ofBV y) = .ok (ofBV (x + y)) := add_ofBV x y
+theorem sub_spec {n} (x y : BitVec n) : Const.sub (ofBV x) (ofBV y) = .ok (ofBV (x - y)) := sub_ofBV x y
+theorem mul_spec {n} (x y : BitVec n) : Const.mul (ofBV x) (ofBV y) = .ok (ofBV (x * y)) := mul_ofBV x y
+theorem and_spec {n} (x y : BitVec n) : Const.and (ofBV x) (ofBV y) = .ok (ofBV (x &&& y)) := and_ofBV x y
+theorem or_spec {n} (x y : BitVec n) : Const.or (ofBV x) (ofBV y) = .ok (ofBV (x ||| y)) := or_ofBV x y
+theorem xor_spec {n} (x y : BitVec n) : Const.xor (ofBV x) (ofBV y) = .ok (ofBV (x ^^^ y)) := xor_ofBV x y
+
+theorem divu_spec {n} (x y : BitVec n) :
+    Const.divu (ofBV x) (ofBV y) = if y = 0 then .err .div0 else .ok (ofBV (x / y)) := by
+  split
+  · rename_i h; exact divu_ofBV_zero x y h
+  · rename_i h; exact divu_ofBV x y h
+
+theorem modu_spec {n} (x y : BitVec n) :
+    Const.modu (ofBV x) (ofBV y) = if y = 0 then .err .div0 else .ok (ofBV (x % y)) := by
+  split
+  · rename_i h; exact modu_ofBV_zero x y h
+  · rename_i h; exact modu_ofBV x y h
+
+/-- signed division truncates toward zero; `INT_MIN / -1` wraps (that is what `sdiv` does) -/
+theorem divs_spec {n} (hn : 1 ≤ n) (x y : BitVec n) :
+    Const.divs (ofBV x) (ofBV y) = if y = 0 then .err .div0 else .ok (ofBV (x.sdiv y)) := by
+  split
+  · rename_i h; exact divs_ofBV_zero x y h
+  · rename_i h; exact divs_ofBV hn x y h
+
+theorem divs_spec_int {n} (hn : 1 ≤ n) (x y : BitVec n) (hy : y ≠ 0) :
+    Const.divs (ofBV x) (ofBV y) = .ok (ofBV (BitVec.ofInt n (x.toInt.tdiv y.toInt))) := by
+  rw [divs_ofBV hn x y hy]
+  congr 2
+  apply BitVec.eq_of_toInt_eq
+  rw [BitVec.toInt_ofInt, BitVec.toInt_sdiv]
+
+theorem mods_spec {n} (hn : 1 ≤ n) (x y : BitVec n) :
+    Const.mods (ofBV x) (ofBV y) = if y = 0 then .err .div0 else .ok (ofBV (x.srem y)) := by
+  split
+  · rename_i h; exact mods_ofBV_zero x y h
+  · rename_i h; exact mods_ofBV hn x y h
+
+theorem mods_spec_int {n} (hn : 1 ≤ n) (x y : BitVec n) (hy : y ≠ 0) :
+    Const.mods (ofBV x) (ofBV y) = .ok (ofBV (BitVec.ofInt n (x.toInt.tmod y.toInt))) := by
+  rw [mods_ofBV hn x y hy, ← BitVec.toInt_srem, BitVec.ofInt_toInt]
+
+/-- shifts saturate once the amount reaches the width — here stated with the *plain* `BitVec` shifts -/
+theorem shl_spec {n} (h64 : n < 2 ^ 64) (x y : BitVec n) :
+    Const.shl (ofBV x) (ofBV y) = .ok (ofBV (x <<< y.toNat)) := by
+  rw [shl_ofBV x y h64, spec_shl_eq]
+
+theorem shr_spec {n} (h64 : n < 2 ^ 64) (x y : BitVec n) :
+    Const.shr (ofBV x) (ofBV y) = .ok (ofBV (x >>> y.toNat)) := by
+  rw [shr_ofBV x y h64, spec_shr_eq]
+
+theorem ashr_spec {n} (hn : 1 ≤ n) (h64 : n < 2 ^ 64) (x y : BitVec n) :
+    Const.ashr (ofBV x) (ofBV y) = .ok (ofBV (x.sshiftRight y.toNat)) := by
+  rw [ashr_ofBV x y hn h64, spec_ashr_eq]
+
+theorem cmpeq_spec {n} (x y : BitVec n) : Const.cmpeq (ofBV x) (ofBV y) = .ok (bit (x == y)) := cmpeq_ofBV x y
+theorem cmpneq_spec {n} (x y : BitVec n) : Const.cmpneq (ofBV x) (ofBV y) = .ok (bit (x != y)) := cmpneq_ofBV x y
+theorem cmpltu_spec {n} (x y : BitVec n) : Const.cmpltu (ofBV x) (ofBV y) = .ok (bit (x.ult y)) := cmpltu_ofBV x y
+theorem cmplts_spec {n} (hn : 1 ≤ n) (x y : BitVec n) :
+    Const.cmplts (ofBV x) (ofBV y) = .ok (bit (x.slt y)) := cmplts_ofBV hn x y
+
+theorem zext_spec {n} (x : BitVec n) (m : Nat) :
+    Const.zext (ofBV x) m = if m ≤ n then .err .sort else .ok (ofBV (x.zeroExtend m)) := by
+  split
+  · rename_i h; exact zext_ofBV_sort x m h
+  · rename_i h; exact zext_ofBV x m (by omega)
+
+/-- sign extension to *every* wider width (before the repair: only multiples of 8) -/
+theorem sext_spec {n} (hn : 1 ≤ n) (x : BitVec n) (m : Nat) :
+    Const.sext (ofBV x) m = if m ≤ n then .err .sort else .ok (ofBV (x.signExtend m)) := by
+  split
+  · rename_i h; exact sext_ofBV_sort x m h
+  · rename_i h; exact sext_ofBV x hn m (by omega)
+
+theorem trun_spec {n} (x : BitVec n) (m : Nat) :
+    Const.trun (ofBV x) m = if m ≥ n then .err .sort else .ok (ofBV (x.truncate m)) := by
+  split
+  · rename_i h; exact trun_ofBV_sort x m h
+  · rename_i h; exact trun_ofBV x m (by omega)
+
+theorem ext_spec (op : ExtOp) (a : Const) (m : Nat) (ha : a.Good) : op.apply a m = Spec.ext op a m :=
+  ext_eq_spec op a m ha
+
+/-! ### errors: exactly sort / division, never a panic -/
+
+theorem sort_iff (op : BinOp) (a b : Const) (ha : a.Good) (hb : b.Good) :
+    op.apply a b = .err .sort ↔ a.bits ≠ b.bits := by
+  constructor
+  · intro h heq
+    rw [apply_eq_spec op a b ha hb] at h
+    unfold Spec.bin at h
+    rw [dif_pos heq] at h
+    split at h <;> cases h
+  · exact apply_sort op a b
+
+theorem result_kinds (op : BinOp) (a b : Const) (ha : a.Good) (hb : b.Good) :
+    (∃ c, op.apply a b = .ok c ∧ c.Good) ∨ op.apply a b = .err .sort ∨ op.apply a b = .err .div0 := by
+  rw [apply_eq_spec op a b ha hb]
+  cases h : Spec.bin op a b with
+  | ok c => exact .inl ⟨c, rfl, Spec.bin_good op a b c ha h⟩
+  | panic => unfold Spec.bin at h; split at h <;> (try split at h) <;> cases h
+  | err e =>
+    unfold Spec.bin at h
+    split at h
+    · split at h
+      · cases h
+      · injection h with h; subst h; exact .inr (.inr rfl)
+    · injection h with h; subst h; exact .inr (.inl rfl)
+
+/-- no operand values cause a panic -/
+theorem no_panic (op : BinOp) (a b : Const) (ha : a.Good) (hb : b.Good) : op.apply a b ≠ .panic := by
+  rcases result_kinds op a b ha hb with ⟨c, h, _⟩ | h | h <;> rw [h] <;> intro h' <;> cases h'
+
+theorem div0_iff (op : BinOp) (a b : Const) (ha : a.Good) (hb : b.Good) :
+    op.apply a b = .err .div0 ↔
+      (a.bits = b.bits ∧ b.val = 0 ∧ (op = .divu ∨ op = .modu ∨ op = .divs ∨ op = .mods)) := by
+  have ea := eq_ofBV a ha.wf
+  have eb := eq_ofBV b hb.wf
+  by_cases hbits : a.bits = b.bits
+  · cases a with
+    | mk n va =>
+      cases b with
+      | mk m vb =>
+        simp only at hbits
+        subst hbits
+        rw [ea, eb, bin_spec_bv ha.pos ha.usz]
+        have hz : (BitVec.ofNat n vb = 0#n) ↔ vb = 0 := by
+          have hv : vb < 2 ^ n := hb.wf
+          constructor
+          · intro h
+            have := congrArg BitVec.toNat h
+            simpa [Nat.mod_eq_of_lt hv] using this
+          · intro h; subst h; rfl
+        simp only [ofBV_bits, ofBV_val, toBV, BitVec.toNat_ofNat, Nat.mod_eq_of_lt hb.wf, true_and]
+        cases op <;> simp [Spec.binBV, hz] <;> (split <;> simp_all)
+  · rw [apply_sort op a b hbits]
+    constructor
+    · intro h; cases h
+    · intro h; exact absurd h.1 hbits
+
+theorem ext_no_panic (op : ExtOp) (a : Const) (m : Nat) (ha : a.Good) : op.apply a m ≠ .panic := by
+  rw [ext_eq_spec op a m ha]
+  cases op <;> simp only [Spec.ext] <;> split <;> intro h <;> cases h
+
+/-! ### all expression trees -/
+
+/-- `executor::eval` computes the compositional bit-vector denotation of every closed or open
+    expression tree whose widths are ≥ 1 (a scalar leaf is the `ExecutorScalar` error on both sides) -/
+theorem eval_denote (e : Expr) (hw : e.WidthsOK) : e.eval = Spec.denote e :=
+  (eval_eq_denote_aux e hw).1
+
+theorem eval_good (e : Expr) (hw : e.WidthsOK) (c : Const) (h : e.eval = .ok c) : c.Good := by
+  rw [eval_denote e hw] at h
+  exact (eval_eq_denote_aux e hw).2 c h
+
+/-- evaluation never panics -/
+theorem eval_no_panic (e : Expr) (hw : e.WidthsOK) : e.eval ≠ .panic := by
+  rw [eval_denote e hw]
+  induction e with
+  | scalar s => intro h; cases h
+  | const c => intro h; cases h
+  | bin op l r ihl ihr =>
+    simp only [Spec.denote]
+    cases hl : Spec.denote l with
+    | panic => exact absurd hl (ihl hw.1)
+    | err e => intro h; cases h
+    | ok a =>
+      cases hr : Spec.denote r with
+      | panic => exact absurd hr (ihr hw.2)
+      | err e => intro h; cases h
+      | ok b =>
+        simp only [Res.bind_ok]
+        unfold Spec.bin
+        split <;> (try split) <;> intro h <;> cases h
+  | ext op m e ih =>
+    simp only [Spec.denote]
+    cases he : Spec.denote e with
+    | panic => exact absurd he (ih hw.2.2)
+    | err e => intro h; cases h
+    | ok a =>
+      simp only [Res.bind_ok]
+      cases op <;> simp only [Spec.ext] <;> split <;> intro h <;> cases h
+  | ite c t e ihc iht ihe =>
+    simp only [Spec.denote]
+    cases hc : Spec.denote c with
+    | panic => exact absurd hc (ihc hw.1)
+    | err e => intro h; cases h
+    | ok cv =>
+      simp only [Res.bind_ok]
+      split
+      · exact iht hw.2.1
+      · exact ihe hw.2.2
+
+/-! ### smart constructors and derived builders -/
+
+theorem mkBin_ok_iff (op : BinOp) (l r : Expr) :
+    (∃ e, Expr.mkBin op l r = .ok e) ↔ l.bits = r.bits := by
+  unfold Expr.mkBin
+  constructor
+  · rintro ⟨e, h⟩; split at h
+    · cases h
+    · rename_i hne; exact Decidable.not_not.1 hne
+  · intro h; exact ⟨_, by rw [if_neg (by simpa using h)]⟩
+
+theorem mkBin_sort (op : BinOp) (l r : Expr) (h : l.bits ≠ r.bits) : Expr.mkBin op l r = .err .sort := by
+  simp [Expr.mkBin, h]
+
+theorem mkIte_ok_iff (c t e : Expr) :
+    (∃ x, Expr.mkIte c t e = .ok x) ↔ (c.bits = 1 ∧ t.bits = e.bits) := by
+  unfold Expr.mkIte
+  constructor
+  · rintro ⟨x, h⟩; split at h
+    · cases h
+    · rename_i hne; simp only [not_or, Decidable.not_not] at hne; exact hne
+  · rintro ⟨h1, h2⟩; exact ⟨_, by rw [if_neg (by simp [h1, h2])]⟩
+
+/-- `Expression::sra` is the arithmetic shift for every amount (after the repair) -/
+theorem sra_spec {n} (hn : 1 ≤ n) (h64 : n < 2 ^ 64) (x y : BitVec n) :
+    (Expr.sra (.const (ofBV x)) (.const (ofBV y)) >>= Expr.eval) = .ok (ofBV (x.sshiftRight y.toNat)) := by
+  simp only [Expr.sra, Expr.mkBin, Expr.bits, ofBV_bits, ne_eq, not_true_eq_false, ↓reduceIte, Res.bind_ok,
+    Expr.eval, BinOp.apply]
+  exact ashr_spec hn h64 x y
+
+/-! ### non-vacuity: the hypotheses are met by concrete non-trivial constants at 1, 7, 64, 65, 128 bits -/
+
+example : (ofBV (1#1)).Good := good_ofBV _ (by decide) (by decide)
+example : (ofBV (0x55#7)).Good := good_ofBV _ (by decide) (by decide)
+example : (ofBV (0x8000000000000000#64)).Good := good_ofBV _ (by decide) (by decide)
+example : (ofBV (0x1ffffffffffffffff#65)).Good := good_ofBV _ (by decide) (by decide)
+example : (ofBV (BitVec.allOnes 128)).Good := good_ofBV _ (by decide) (by decide)
+example : Const.ashr (ofBV (0x80#8)) (ofBV (9#8)) = .ok (ofBV (0xff#8)) := by decide
+example : Const.sext (ofBV (1#1)) 3 = .ok (ofBV (7#3)) := by decide
+example : (Expr.bin .add (.const ⟨8, 1⟩) (.ext .zext 8 (.const ⟨1, 1⟩))).WidthsOK := by
+  refine ⟨⟨?_, ?_, ?_⟩, ?_, ?_, ⟨?_, ?_, ?_⟩⟩ <;> decide
 
 end Falcon.C04
